@@ -103,7 +103,16 @@ func FOLD_InlineIface(h *rt.H) {
 	a, z := int8(h.U8("a")), int8(h.U8("z"))
 	v := inlIfaceT{A: a, Z: z}
 	want := []ev.Event{{K: ev.ObjStart}, {K: ev.Key, Str: []byte("a")}, sNum(int64(a))}
-	switch h.Choose("dyn", 0, 5) {
+	switch h.Choose("dyn", 0, 6) {
+	case 6: // nested objects and arrays inside the inlined value
+		x := int8(h.U8("mx"))
+		v.I = struct {
+			O map[string]int8
+			S []map[string]int8
+		}{map[string]int8{"k": x}, []map[string]int8{{"l": x}}}
+		k := func(s string) ev.Event { return ev.Event{K: ev.Key, Str: []byte(s)} }
+		want = append(want, k("o"), ev.Event{K: ev.ObjStart}, k("k"), sNum(int64(x)), ev.Event{K: ev.ObjEnd},
+			k("s"), ev.Event{K: ev.ArrStart}, ev.Event{K: ev.ObjStart}, k("l"), sNum(int64(x)), ev.Event{K: ev.ObjEnd}, ev.Event{K: ev.ArrEnd})
 	case 4: // the inlined value inlines an interface value itself (same struct type)
 		x := int8(h.U8("mx"))
 		v.I = inlIfaceT{A: x, I: map[string]int8{"m": x}, Z: x}
@@ -195,6 +204,8 @@ func (z zSlice) IsZero() bool { return len(z) > 0 && z[0] == 0 }
 
 type folderFields struct {
 	ZL zSlice        `struct:"zl,omitempty"`
+	ZA [0]int8       `struct:"za,omitempty"` // a zero-length array is empty
+	ZB *[0]int8      `struct:"zb,omitempty"`
 	P  *valF         // nil: null
 	Q  *ptrF         // nil: null
 	I  gotype.Folder // nil: null
@@ -227,7 +238,7 @@ func FOLD_FolderFields(h *rt.H) {
 	var want []ev.Event
 	switch h.Choose("where", 0, 7) {
 	case 0: // struct fields
-		f := folderFields{V: valF{x}, W: ptrF{x}}
+		f := folderFields{V: valF{x}, W: ptrF{x}, ZB: &[0]int8{}}
 		want = []ev.Event{{K: ev.ObjStart}}
 		add := func(k string, evs []ev.Event) { want = append(append(want, key(k)), evs...) }
 		// omitempty on a named slice with IsZero: empty if it has no elements or says so
@@ -473,8 +484,25 @@ func FOLD_UserFolders(h *rt.H) {
 		}
 		return v.OnObjectFinished()
 	}
+	optA, optB := gotype.Folders(folder, mapFolder), gotype.Folders(objFolder)
+	if h.Choose("optionsUsedBefore", 0, 1) == 1 {
+		// the same option values configured another iterator before: an option is a
+		// description, using it does not change it
+		var other ev.Recorder
+		it0, err0 := gotype.NewIterator(&other, optA, optB)
+		h.Assert("first-iterator", err0 == nil && it0.Fold(ufObj{1}) == nil)
+		if h.Choose("onlyA", 0, 1) == 1 {
+			// ... this iterator gets optA alone: ufObj has no registered folder here
+			var rec ev.Recorder
+			it, err := gotype.NewIterator(&rec, optA)
+			h.Assert("iterator-created", err == nil)
+			h.Assert("no-error", it.Fold(ufObj{x}) == nil)
+			h.Assert("events", ev.Equal(ev.Normalise(rec.Events), []ev.Event{{K: ev.ObjStart}, key("x"), sNum(int64(x)), {K: ev.ObjEnd}}))
+			return
+		}
+	}
 	var rec ev.Recorder
-	it, err := gotype.NewIterator(&rec, gotype.Folders(folder, mapFolder, objFolder))
+	it, err := gotype.NewIterator(&rec, optA, optB)
 	h.Assert("iterator-created", err == nil)
 	if err != nil {
 		return
